@@ -850,6 +850,8 @@ def share_variants(sd, r, recs, chosen):
             keep = r.choice(list(g))
             for j in g:
                 fm[j] = [keep]
+        if any(v.name == name for v in out):             # the same group drawn twice: keep the names unique
+            name += "#" + str(sum(v.name.split("#")[0] == name for v in out) + 1)
         out.append(Variant(name, recs, chosen, featmap=fm))
     for a, b in itertools.combinations(forms, 2):
         shared(f"share-{FEATS[a]}+{FEATS[b]}", [(a, b)])
@@ -962,6 +964,7 @@ def shape_e2e(ctx, shim, model, ch, r, n, per_script, lay):
         ctxs = [""] + cl
         nc = len(cl)
         variants[sd.iso] = vs = e2e_variants(sd, r.choice(langs) if langs else None, r)
+        assert len({v.name for v in vs}) == len(vs), "variant names key the fonts: they must be unique"
         lens = {}
         for var in vs:
             # layouts that are only counted get a token share
